@@ -35,6 +35,7 @@ static void *scn_malloc(size_t n);
 static void *scn_calloc(size_t a, size_t b);
 static void scn_free(void *p);
 static int scn_pthread_create(pthread_t *t, const pthread_attr_t *a, void *(*fn)(void *), void *arg);
+static int scn_pthread_join(pthread_t t, void **ret);
 #define malloc(n)			scn_malloc(n)
 #define calloc(a, b)			scn_calloc(a, b)
 #define free(p)				scn_free(p)
@@ -45,6 +46,10 @@ static int scn_pthread_create(pthread_t *t, const pthread_attr_t *a, void *(*fn)
 #define sched_setaffinity(p, n, m)	0
 #undef pthread_create
 #define pthread_create(t, a, f, g)	scn_pthread_create(t, a, f, g)
+/* pthread_t values are recycled by libc once a thread has been joined: join the NEWEST cooperative
+ * thread carrying that pthread_t (vrt_pthread_join would pick the oldest, already joined one) */
+#undef pthread_join
+#define pthread_join(t, r)		scn_pthread_join(t, r)
 #define HAVE_SYSCONF 1
 #define HAVE_SCHED_GETCPU 1
 #define HAVE_SCHED_SETAFFINITY 1
@@ -83,7 +88,7 @@ static int nworkers_done;
 /* heap objects of the library, named at allocation */
 static struct call_rcu_data *crd_obj[MAXCRD];
 static int crd_freed[MAXCRD];
-static int ncrd, ncompl, nwork;
+static int ncrd, ncompl, nwork, percpu_named;
 struct compl_rec { void *p; int freed; };
 static struct compl_rec compls[1024];
 
@@ -112,7 +117,10 @@ static void *scn_malloc(size_t n)
 		vrt_name(&c->futex, sizeof(c->futex), "crd%d.futex", k);
 		vrt_name(&c->qlen, sizeof(c->qlen), "crd%d.qlen", k);
 		vrt_log("ALLOC crd%d", k);
-	} else if (vrt_cfg_ncpus > 0 && n == sizeof(void *) * (size_t)vrt_cfg_ncpus && per_cpu_call_rcu_data == NULL) {
+	} else if (vrt_cfg_ncpus > 0 && n == sizeof(void *) * (size_t)vrt_cfg_ncpus && cpus_array_len > 0 && !percpu_named) {
+		/* alloc_cpu_call_rcu_data(): the first allocation of this size once cpus_array_len is set
+		 * (free_all_cpu_call_rcu_data()'s scratch array has the same size but comes later) */
+		percpu_named = 1;
 		vrt_name(p, n, "percpu");
 		vrt_log("ALLOC percpu %d", vrt_cfg_ncpus);
 	}
@@ -211,15 +219,42 @@ static void *tramp_fn(void *p)
 	return t.fn(t.arg);
 }
 
+static struct { pthread_t pt; int tid; } spawned[VRT_MAXT];
+static int nspawned;
+
 static int scn_pthread_create(pthread_t *t, const pthread_attr_t *a, void *(*fn)(void *), void *arg)
 {
 	struct tramp *tr;
+	int r;
 	if (!vrt_active)
-		return pthread_create(t, a, fn, arg);
+		return (pthread_create)(t, a, fn, arg);
 	tr = malloc(sizeof(*tr));
 	tr->fn = fn;
 	tr->arg = arg;
-	return vrt_pthread_create(t, a, tramp_fn, tr);
+	r = vrt_pthread_create(t, a, tramp_fn, tr);
+	if (!r && nspawned < VRT_MAXT) {
+		spawned[nspawned].pt = *t;
+		spawned[nspawned].tid = vrt_nthreads() - 1;
+		nspawned++;
+	}
+	return r;
+}
+
+static int scn_pthread_join(pthread_t t, void **ret)
+{
+	int i;
+	if (!vrt_active)
+		return (pthread_join)(t, ret);
+	for (i = nspawned - 1; i >= 0; i--)
+		if (pthread_equal(spawned[i].pt, t)) {
+			vrt_point();
+			vrt_log("JOIN T%d", spawned[i].tid);
+			vrt_join(spawned[i].tid);
+			if (ret)
+				*ret = NULL;
+			return 0;
+		}
+	return (pthread_join)(t, ret);
 }
 
 /* ---- read-side sections ------------------------------------------------------------------------ */
@@ -396,8 +431,10 @@ static void *worker(void *arg)
 			if (!myh) {
 				myh = do_create((int)(vrt_rand() % 100) < rtpct ? URCU_CALL_RCU_RT : 0, -1);
 				do_set_thread(myh);
-			} else {
-				/* remove from per-thread use first (API contract), then destroy with callbacks pending */
+			} else if (depth[me] == 0) {
+				/* remove from per-thread use first (API contract), then destroy with callbacks pending.
+				 * Not inside a read-side section: call_rcu_data_free() waits for the helper, which may
+				 * be inside synchronize_rcu() (same rule as for synchronize_rcu / rcu_barrier). */
 				do_set_thread(NULL);
 				do_free(myh);
 				myh = NULL;
